@@ -10,6 +10,7 @@ import (
 type NameSet struct {
 	All   bool
 	Names map[string]bool
+	Why   string
 }
 
 func newNameSet() *NameSet { return &NameSet{Names: map[string]bool{}} }
@@ -28,6 +29,7 @@ func (s *NameSet) AddAll(o *NameSet) bool {
 	}
 	if o.All && !s.All {
 		s.All = true
+		s.Why = o.Why
 		changed = true
 	}
 	for n := range o.Names {
@@ -57,7 +59,7 @@ func (s *NameSet) Sorted() []string {
 
 func (s *NameSet) String() string {
 	if s.All {
-		return "ALL"
+		return "ALL(" + s.Why + ")"
 	}
 	return strings.Join(s.Sorted(), ",")
 }
@@ -92,6 +94,11 @@ func (s *State) derive() *State {
 // havocked returns a new state where the names in hs are fresh.
 func (s *State) havocked(hs *NameSet) *State {
 	s.fc.recordWrites(hs)
+	return s.havockedSilently(hs)
+}
+
+// havockedSilently: loop-header havoc; the names are those the body writes anyway, so nothing new is recorded.
+func (s *State) havockedSilently(hs *NameSet) *State {
 	n := s.derive()
 	n.havoc = hs
 	return n
